@@ -30,7 +30,7 @@ def required_counters(tier):
     return ["inject:call", "inject:after-sr", "inject:mid-body", "inject:close", "disconnect:RST", "disconnect:CLOSE", "disconnect:110",
             "close-events", "file-close-events", "outcome:500", "outcome:truncated", "probe-served", "class:Exception",
             "class:OSError", "class:BaseException", "expose:on", "expose:off", "logsock:on", "logsock:off",
-            "disconnect-before-output", "disconnect-raced-application-output", "pipelined-file-teardowns"]
+            "disconnect-before-output", "disconnect-raced-application-output", "pipelined-file-teardowns", "handover-race-schedules"]
 
 
 def base_programs():
@@ -108,6 +108,9 @@ def run_case(case, strat=None, record_pilot=False):
         return holder["app"](environ, start_response)
 
     adj = {"threads": 2, "expose_tracebacks": case["expose"], "log_socket_errors": case["logsock"], "send_bytes": 1}
+    if case.get("after_head"):
+        # (with look-ahead the channel keeps reading while the request executes and notices the disconnect)
+        adj["channel_request_lookahead"] = 1
     early = case.get("early_disconnect")
     if early:
         # the channel keeps reading while the request executes, so it learns about the
@@ -154,6 +157,17 @@ def run_case(case, strat=None, record_pilot=False):
             done.set()
             return
         c.send(("GET /case HTTP/%s\r\nHost: h\r\n\r\n" % v).encode())
+        if case.get("after_head"):
+            # goes away the moment the first bytes of the response arrive (the head is on the wire,
+            # the body may not have been handed over yet)
+            c.wait(lambda cl: len(cl.received) > 0, timeout=30.0)
+            c.reset() if case["after_head"] == "RST" else c.close()
+            w.sleep(5.0)
+            out["received"] = c.received
+            out["eof"] = True
+            out["client"] = c
+            done.set()
+            return
         if early:
             # wait until the application is running, go away, give the server (virtual)
             # time to notice, then let the application carry on
@@ -252,6 +266,9 @@ def judge(case, o, acc):
             out.append(("file-not-closed", "the file handed to wsgi.file_wrapper was never closed"))
         elif fcloses > 1:
             acc.count("file-closed-more-than-once")
+    if case.get("after_head"):
+        acc.count("disconnect-between-head-and-body-handover")
+        return out
     if case.get("pipeline_files"):
         acc.count("pipelined-file-teardowns")
         if log.count("return", "case2") > 0 and log.count("file-close", "case2") < 1:
@@ -342,6 +359,7 @@ def plan(tier, seed):
     for i in range(4):
         specs.append({"mode": "early", "part": i, "parts": 4, "schedules": 1 if tier == "quick" else 4, "seed": seed})
     specs.append({"mode": "pipelined-files", "schedules": 2 if tier == "quick" else 8, "seed": seed, "part": 0})
+    specs.append({"mode": "handover-race", "part": 0, "seed": seed, "second": 4 if tier == "quick" else 12})
     nr = 16 if tier == "quick" else 32
     for i in range(nr):
         specs.append({"mode": "early-race", "part": i, "parts": nr, "cap": 40 if tier == "quick" else 400, "seed": seed})
@@ -405,6 +423,32 @@ def run_shard(spec):
                         strat = None if sch == 0 else {"kind": "random", "seed": spec["seed"] * 131 + k, "p": [0.02, 0.1, 0.3][sch % 3]}
                         run_and_judge(acc, case, f"pf|{raises_first}|{how}|{size2}|{sch}", strat)
         acc.sample({"pipelined_files": "two file_wrapper responses queued to a client that never reads, then a reset; close() of one file raises"})
+    elif spec["mode"] == "handover-race":
+        # the client goes away as soon as the head arrives; a forced switch plus a pick preference: the
+        # worker is pre-empted while it hands its output over (-> client, which disconnects), and when the
+        # client blocks the I/O thread (which tears the channel down) runs before the worker goes on
+        big = "".join(chr(65 + i % 26) for i in range(1500))
+        n2 = 0
+        for ret in ("fw_seek", "fw_noseek"):
+            for kind in ("RST", "CLOSE"):
+                prog = {"status": "200 OK", "headers": [["X-P", ret]], "cl": 1500, "sr": "call", "steps": [], "ret": ret,
+                        "fw": {"content": big, "pos": 0}, "close": "ok", "exc": "Exception"}
+                case = {"prog": prog, "exc": "Exception", "expose": False, "logsock": True, "version": "1.1", "after_head": kind, "sndbuf": 600}
+                o = run_case(case, None, record_pilot=True)
+                pilot = o["world"].sched.pilot
+                th = {t.name: t.tid for t in o["world"].sched.threads}
+                io = [t.tid for t in o["world"].sched.threads if t.role == "io"]
+                cl = th.get("client")
+                o["world"].close()
+                firsts = [step for step, tids, site, cur in pilot
+                          if cur not in io and site and str(site[0]) in ("execute", "write", "write_soon", "_flush_some", "send") and cl in tids]
+                for step in firsts:
+                    # worker -> client at this point; when the client blocks (after its disconnect) the
+                    # I/O thread is served first, the pre-empted worker last
+                    run_and_judge(acc, case, f"handover|{ret}|{kind}|{step}", {"kind": "forced", "switches": {str(step): cl}, "prefer": io})
+                    n2 += 1
+        acc.count("handover-race-schedules", n2)
+        acc.sample({"handover_race": "disconnect between the response head and the hand-over of a file_wrapper body", "schedules": n2})
     elif spec["mode"] == "early-race":
         # the client goes away and the application carries on at the same moment: every single
         # pre-emption of that schedule (capped), so that the worker's output overlaps the I/O
@@ -431,6 +475,9 @@ def run_shard(spec):
                     name = str(site[0]) if site else ""
                     label = str(site[1]) if site and len(site) > 1 else ""
                     if cur in io and ("close" in name or name == "del_channel" or (name in ("lock", "unlock") and label.startswith("channel.py"))):
+                        focus += [(step, t) for t in tids]
+                    elif cur not in io and name in ("execute", "write", "write_soon"):
+                        # ... and every pre-emption of the worker while it hands its output over
                         focus += [(step, t) for t in tids]
                 acc.count("teardown-preemption-points", len(focus))
                 rest = [pt for pt in points if pt not in set(focus)]
